@@ -58,6 +58,8 @@ static void asl_verif_sym(
 
 #define LOCSYMSIGHT 3 /* max. sight for nameless temporary symbols */
 
+#define THROWERRORSMAXPASS 32 /* -Y discards jump errors only up to this pass */
+
 #define LEAVE  goto func_exit
 #define LEAVE2 goto func_exit2
 
@@ -2181,7 +2183,14 @@ static Boolean SymbolAdder(PTree* PDest, PTree Neu, void* pData) {
                 || ((NewEntry->SymWert.Typ == TempInt)
                     && (NewEntry->SymWert.Contents.Int != OldInt))) {
                 if ((!Repass) && (JmpErrors > 0)) {
-                    if (ThrowErrors) {
+                    /* -Y: a statement whose jump error gets discarded has
+                       emitted no code, so discarding may itself move the
+                       labels behind it.  If the jump is really too far, this
+                       repeats every other pass and never ends; stop
+                       discarding after a generous number of passes so that
+                       the error finally gets reported. */
+
+                    if (ThrowErrors && (PassNo <= THROWERRORSMAXPASS)) {
                         ErrorCount -= JmpErrors;
                     }
                     JmpErrors = 0;
